@@ -2,7 +2,7 @@
 From Coq Require Import String List NArith Bool.
 From YV Require Import Gen.SnapshotGen Compiler.Snapshot Compiler.SnapshotProofs.
 From YV Require Gen.AstBuilderArms Compiler.Accounting Compiler.AccountingProofs Compiler.AccountingC06.
-From YV Require Compiler.Suppress Compiler.SuppressProofs.
+From YV Require Compiler.Suppress Compiler.SuppressProofs Compiler.Includes Compiler.IncludesProofs.
 Import ListNotations.
 Local Open Scope N_scope.
 
@@ -109,3 +109,22 @@ Theorem warnings_independent_of_history : forall disabled h,
   Compiler.Suppress.supp (Compiler.Suppress.run disabled h) = [].
 Proof. exact (Compiler.SuppressProofs.warnings_independent_of_history_gen add_source_exits_clear_suppressions). Qed.
 Print Assumptions warnings_independent_of_history.
+
+(* "every error is recorded in errors()": the errors of the parser (a rule with a syntax error sitting
+   next to a rule with a semantic error in one source) are appended to errors() on every way out of
+   add_source taken after the source was parsed; Compiler/Accounting.v counts them unconditionally
+   (add_source = AST errors + c_items), this generated fact is what makes that faithful *)
+Theorem add_source_records_parser_errors : forallb snd add_source_exits_record_parser_errors = true.
+Proof. vm_compute. reflexivity. Qed.
+Print Assumptions add_source_records_parser_errors.
+
+(* the include stack (circular-include detection, lookup directory of relative includes) is left as it
+   was found by every source, whatever it includes and whichever of its rules or included files fail *)
+Theorem include_stack_push_pop_balanced : include_stack_balanced = true.
+Proof. vm_compute. reflexivity. Qed.
+Print Assumptions include_stack_push_pop_balanced.
+
+Theorem include_stack_restored : forall fuel files items st,
+  Compiler.Includes.run_items include_stack_balanced fuel files items st = st.
+Proof. rewrite include_stack_push_pop_balanced. exact Compiler.IncludesProofs.include_stack_restored_gen. Qed.
+Print Assumptions include_stack_restored.
